@@ -342,4 +342,139 @@ theorem lhaReadHeader_l01 (crc : Bytes → UInt16) (m : LhaMember) (hm : m.Legal
     rw [hos, lha_post H 1 _ _ m.name hname]
     simp [lhaSeenName, lhaSeenOs, hl]
 
+
+/-! ## level 2 headers -/
+
+def l2Hdr (hl n t : Nat) (attr osId : UInt8) (name : Bytes) (crcv : Nat) (pad : Bytes) : Bytes :=
+  le16 hl ++ (([0x2d, 0x6c, 0x68, 0x30, 0x2d] : Bytes) ++ (le32 n ++ (le32 n ++ (le32 t ++ (([attr, 2] : Bytes) ++
+    (le16 crcv ++ (([osId] : Bytes) ++ (le16 (3 + name.length) ++ (([1] : Bytes) ++ (name ++ (le16 0 ++ pad)))))))))))
+
+theorem l2Hdr_length (hl n t : Nat) (attr osId : UInt8) (name : Bytes) (crcv : Nat) (pad : Bytes) :
+    (l2Hdr hl n t attr osId name crcv pad).length = 29 + name.length + pad.length := by
+  unfold l2Hdr
+  simp only [List.length_append, le16_length, le32_length, List.length_cons, List.length_nil]; omega
+
+theorem bAt_pair0 (a b : UInt8) (r : Bytes) : bAt (([a, b] : Bytes) ++ r) 0 = a.toNat := by simp [bAt]
+
+theorem lhaReadHeader_l2 (crc : Bytes → UInt16) (m : LhaMember) (hm : m.Legal) (hl : m.level = 2) (rest : Bytes) :
+    ∃ raw, lhaReadHeader (lhaEntry crc m ++ rest) =
+      some (plainHdr raw m.level m.data.length (lhaSeenOs m) (lhaSeenName m), m.data ++ rest) := by
+  have hname := hm.name
+  have hnl := hname.len
+  have hnpos : 0 < m.name.length := List.length_pos_iff.mpr hname.ne
+  obtain ⟨pad, hpl, hE⟩ : ∃ pad : Bytes, pad.length ≤ 1 ∧ lhaEntry crc m =
+      l2Hdr (29 + m.name.length + pad.length) m.data.length m.time m.attr m.osId m.name (crc m.data).toNat pad ++ m.data := by
+    refine ⟨if (29 + m.name.length) % 256 = 0 then [0] else [], by split <;> simp, ?_⟩
+    have h2 : ¬ m.level = 0 ∧ ¬ m.level = 1 := by omega
+    unfold lhaEntry l2Hdr
+    simp only [h2.1, h2.2, if_false, lhaLh0, List.length_append, le16_length, le32_length, List.length_cons,
+      List.length_nil, List.append_assoc]
+    have e : 2 + (0 + 1 + 1 + 1 + 1 + 1 + (4 + (4 + (4 + (0 + 1 + 1 + (2 + (0 + 1))))))) + (2 + (0 + 1 + (m.name.length + 2)))
+        = 29 + m.name.length := by omega
+    rw [e]
+  rw [hE, List.append_assoc]
+  generalize hH : l2Hdr (29 + m.name.length + pad.length) m.data.length m.time m.attr m.osId m.name (crc m.data).toNat pad = H
+  have hHl : H.length = 29 + m.name.length + pad.length := by rw [← hH]; exact l2Hdr_length _ _ _ _ _ _ _ _
+  have hH' : H = le16 (29 + m.name.length + pad.length) ++ (([0x2d, 0x6c, 0x68, 0x30, 0x2d] : Bytes) ++
+      (le32 m.data.length ++ (le32 m.data.length ++ (le32 m.time ++ (([m.attr, 2] : Bytes) ++
+      (le16 (crc m.data).toNat ++ (([m.osId] : Bytes) ++ (le16 (3 + m.name.length) ++ (([1] : Bytes) ++
+      (m.name ++ (le16 0 ++ pad))))))))))) := by rw [← hH]; rfl
+  have e0 : u16At H 0 = 29 + m.name.length + pad.length := by
+    rw [hH']; exact u16At_le16 _ (by omega) _
+  have e20 : bAt H 20 = 2 := by
+    rw [hH']; simp only [bAt_s16, bAt_s5, bAt_s32]; rw [bAt_pair1]; rfl
+  have e7 : u32At H 7 = m.data.length := by
+    rw [hH']; simp only [u32At_s16, u32At_s5]; exact u32At_le32 _ hm.dlen _
+  have e11 : u32At H 11 = m.data.length := by
+    rw [hH']; simp only [u32At_s16, u32At_s5, u32At_s32]; exact u32At_le32 _ hm.dlen _
+  have e23 : bAt H 23 = m.osId.toNat := by
+    rw [hH']; simp only [bAt_s16, bAt_s5, bAt_s32, bAt_s2]; rw [bAt_single0]
+  have e24 : u16At H 24 = 3 + m.name.length := by
+    rw [hH']; simp only [u16At_s16, u16At_s5, u16At_s32, u16At_s2, u16At_s1]
+    exact u16At_le16 _ (by omega) _
+  have e26 : bAt H 26 = 1 := by
+    rw [hH']; simp only [bAt_s16, bAt_s5, bAt_s32, bAt_s2, bAt_s1]; rw [bAt_single0]; rfl
+  have emeth : (H.drop 2).take 5 = lhaLh0 := by rw [hH']; rfl
+  have hP27 : H = (le16 (29 + m.name.length + pad.length) ++ ([0x2d, 0x6c, 0x68, 0x30, 0x2d] : Bytes) ++
+      le32 m.data.length ++ le32 m.data.length ++ le32 m.time ++ ([m.attr, 2] : Bytes) ++
+      le16 (crc m.data).toNat ++ ([m.osId] : Bytes) ++ le16 (3 + m.name.length) ++ ([1] : Bytes)) ++
+      (m.name ++ (le16 0 ++ pad)) := by rw [hH']; simp only [List.append_assoc]
+  have hP27l : (le16 (29 + m.name.length + pad.length) ++ ([0x2d, 0x6c, 0x68, 0x30, 0x2d] : Bytes) ++
+      le32 m.data.length ++ le32 m.data.length ++ le32 m.time ++ ([m.attr, 2] : Bytes) ++
+      le16 (crc m.data).toNat ++ ([m.osId] : Bytes) ++ le16 (3 + m.name.length) ++ ([1] : Bytes)).length = 27 := by
+    simp only [List.length_append, le16_length, le32_length]; rfl
+  have ename : (H.drop 27).take m.name.length = m.name := by
+    rw [hP27, List.drop_left' hP27l, List.take_left' rfl]
+  have eend : u16At H (27 + m.name.length) = 0 := by
+    have : H = ((le16 (29 + m.name.length + pad.length) ++ ([0x2d, 0x6c, 0x68, 0x30, 0x2d] : Bytes) ++
+      le32 m.data.length ++ le32 m.data.length ++ le32 m.time ++ ([m.attr, 2] : Bytes) ++
+      le16 (crc m.data).toNat ++ ([m.osId] : Bytes) ++ le16 (3 + m.name.length) ++ ([1] : Bytes)) ++ m.name) ++
+      (le16 0 ++ pad) := by rw [hH']; simp only [List.append_assoc]
+    rw [this, u16At_drop, List.drop_left' (by rw [List.length_append, hP27l])]
+    rfl
+  have h22 : 22 ≤ H.length := by omega
+  unfold lhaReadHeader
+  rw [sRead_header H _ h22]
+  have hlev : bAt (H.take 22) 20 = 2 := by rw [bAt_take _ _ _ (by decide)]; exact e20
+  have hu0 : u16At (H.take 22) 0 = 29 + m.name.length + pad.length := by
+    rw [← e0]; simp [u16At, List.getD_eq_getElem?_getD, List.getElem?_take]
+  have hn0 : ¬ (2 = 0) := by decide
+  have hn1 : ¬ (2 = 1) := by decide
+  simp only [hlev, hn0, hn1, if_false, if_true, hu0]
+  have h26 : ¬ 29 + m.name.length + pad.length < 26 := by omega
+  simp only [h26, if_false]
+  obtain ⟨raw, s, h1, h2, h3⟩ := read_header_bytes H (m.data ++ rest) h22 (by unfold lhaMaxExt; omega) { level := 2 }
+  have hs : s = H.drop 22 ++ (m.data ++ rest) := by
+    rw [sRead_header H _ h22] at h1
+    simp only [Option.some.injEq, Prod.mk.injEq] at h1
+    exact h1.2.symm
+  have hext : extendRaw { raw := H.take 22, level := 2 } (H.drop 22 ++ (m.data ++ rest))
+      (29 + m.name.length + pad.length - (H.take 22).length) = some ({ raw := H, level := 2 }, m.data ++ rest) := by
+    have : 29 + m.name.length + pad.length - (H.take 22).length = H.length - 22 := by
+      rw [List.length_take]; omega
+    rw [this, ← hs, ← h2]; exact h3
+  rw [hext]
+  simp only [emeth, e7, e11, e23]
+  have hK : ¬ m.osId.toNat = 0x4b := by
+    intro h; exact hm.os9 hl (UInt8.toNat_inj.mp h)
+  simp only [hK, if_false]
+  -- extended headers: file name, then the terminator
+  unfold decodeExt
+  simp only []
+  rw [extWalk]
+  have hc1 : ¬ 24 + 2 > H.length := by omega
+  simp only [hc1, if_false, show ¬ (2 = 4) by decide, e24]
+  have hc2 : ¬ 3 + m.name.length = 0 := by omega
+  have hc3 : ¬ (3 + m.name.length < 2 + 1 ∨ 3 + m.name.length > H.length - 24 - 2) := by omega
+  simp only [hc2, hc3, if_false]
+  have hdecode : extDecode { raw := H, level := 2, method := lhaLh0, csize := m.data.length, length := m.data.length, osType := m.osId.toNat } (24 + 2) (3 + m.name.length - 2) = plainHdr H 2 m.data.length m.osId.toNat m.name := by
+    unfold extDecode
+    have ht : bAt H (24 + 2) = 1 := e26
+    have hd : (H.drop (24 + 2 + 1)).take (3 + m.name.length - 2 - 1) = m.name := by
+      have : 3 + m.name.length - 2 - 1 = m.name.length := by omega
+      rw [this]; exact ename
+    simp only [ht, hd, show ¬ (1 = 0) by decide, if_false, if_true]
+    have hlen1 : ¬ m.name.length < 1 := by omega
+    simp only [hlen1, if_false, cstr_self m.name hname.nul]
+    have hmap : m.name.map (fun b => if b = 0x2f then 0x5f else b) = m.name := by
+      have : ∀ (l : Bytes), (∀ x ∈ l, x ≠ 0x2f) → l.map (fun b => if b = 0x2f then (0x5f : UInt8) else b) = l := by
+        intro l hl
+        induction l with
+        | nil => rfl
+        | cons c l ih =>
+          have hc : c ≠ 0x2f := hl c (by simp)
+          simp [hc, ih (fun x hx => hl x (by simp [hx]))]
+      exact this m.name hname.slash
+    rw [hmap]; rfl
+  rw [hdecode]
+  have hfuel : H.length = (28 + m.name.length + pad.length) + 1 := by omega
+  rw [show extWalk 2 H.length = extWalk 2 ((28 + m.name.length + pad.length) + 1) by rw [hfuel], extWalk]
+  simp only [plainHdr_raw]
+  have hc4 : ¬ 24 + (3 + m.name.length) + 2 > H.length := by omega
+  have hoff : 24 + (3 + m.name.length) = 27 + m.name.length := by omega
+  simp only [hc4, if_false, show ¬ (2 = 4) by decide, hoff, eend, if_true, ite_self, Option.map_some]
+  refine ⟨H, ?_⟩
+  rw [lha_post H 2 _ _ m.name hname]
+  simp [lhaSeenName, lhaSeenOs, hl]
+
 end Xmp.Container
